@@ -81,6 +81,11 @@ CLAIMED["C12"] = ("fault_enumeration", "5 C12",
     "the index of the callback invocation that raises, the exception kind and the widget's handled/unhandled answers are solver variables whose whole range is enumerated through the solver "
     "(coverage certificate per instance); the exception contract, delivery order, redraw-before-wait and the terminal's final modes, termios and signal handlers are checked on every path.",
     "z3 only enumerates the fault space (no arithmetic content, said plainly); one session shape; glib loop absent; faults inside MainLoop.start() not injected.")
+CLAIMED["C06"] = ("model_checking", "5 C06",
+    "Seven real widget trees are driven through histories whose mutation, release and render selectors are solver variables (enumerated through the solver, coverage certificate per instance); "
+    "a twin tree receiving the same operations always renders with CanvasCache emptied; content, cursor and rows() of the cached tree must equal the twin's, handed-out canvases must stay unchanged and refuse mutation.  "
+    "No arithmetic content (said plainly): the solver enumerates the history space and certifies it was exhausted.",
+    "z3 trusted for path feasibility/coverage only; 7 trees, 8-17 mutators each, histories of 2 (quick) / 3 (thorough) mutations; plain attribute assignments without a setter (Padding.left, BoxAdapter.height, Overlay.top_w) are not mutators.")
 NOT_YET = {}
 TECH = "bounded symbolic execution of the real urwid code (AST-lifted import of /repo) with z3 deciding every path obligation; counterexamples replayed on the un-lifted code"
 def main():
